@@ -115,14 +115,30 @@ def findByPosition (within : List Pt → Pt → Bool) (n : Net) (pts : List Pt) 
   | none => .error .attr
   | some gs => pts.mapM (fun p => (gs.filter (fun g => within g.ring p)).mapM (idOfPoly n))
 
-/-- `find_lanelet_by_shape(shape)`: asserts a Circle / Polygon / Rectangle; `meets ring s` stands for
+/-- `find_lanelet_by_shape` for a Circle / Polygon / Rectangle; `meets ring s` stands for
     `polygon.intersects(shape.shapely_object)`. -/
+def findPrim (meets : List Pt → Prim → Bool) (n : Net) (s : Prim) : Res (List Int) :=
+  match n.tree with
+  | none => .error .attr
+  | some gs => (gs.filter (fun g => meets g.ring s)).mapM (idOfPoly n)
+
+/-- `for l_id in …: if l_id not in res: res.append(l_id)`. -/
+def appendNew (res : List Int) : List Int → List Int
+  | [] => res
+  | i :: is => appendNew (if i ∈ res then res else res ++ [i]) is
+
+/-- The ShapeGroup branch: the lanelets any member meets, each once, in order of first appearance. -/
+def findGroup (meets : List Pt → Prim → Bool) (n : Net) : List Int → List Prim → Res (List Int)
+  | res, [] => .ok res
+  | res, s :: ss =>
+    match findPrim meets n s with
+    | .error e => .error e
+    | .ok ids => findGroup meets n (appendNew res ids) ss
+
+/-- `find_lanelet_by_shape(shape)`: a ShapeGroup occupies the union of its shapes (lanelet.py:2005-2012). -/
 def findByShape (meets : List Pt → Prim → Bool) (n : Net) : Shape → Res (List Int)
-  | .group _ => .error .assert
-  | .prim s =>
-    match n.tree with
-    | none => .error .attr
-    | some gs => (gs.filter (fun g => meets g.ring s)).mapM (idOfPoly n)
+  | .group ss => findGroup meets n [] ss
+  | .prim s => findPrim meets n s
 
 /-! ### Operation sequences -/
 
